@@ -80,6 +80,11 @@ CHECKS = {
          "BloomTokenLog and TokenMemoryCache are driven through every call history up to a depth bound (all capacities incl. those forcing the hash-set-to-bloom conversion) against reference models: no nonce accepted twice, cache agrees exactly with an LRU-of-queues model and never hands a token out twice. Genuine Retry and NEW_TOKEN tokens obtained from real flows are presented unchanged, with every single bit flipped, every truncation, extension, every splice with a second genuine token, from the same address / same IP other port / other IP, at issue time / lifetime-1 s / lifetime+2 s, and a second time; the server's verdict (Incoming validated / may_retry, or stateless INVALID_TOKEN) must match the property. The client must reject server transport parameters whose CID-echo fields are absent, wrong or unexpectedly present, with and without a real Retry.",
          "Real ring AEAD for tokens, model TLS for the handshake; one-second token time resolution, so the exact lifetime boundary is not probed; Retry integrity-tag alterations are under C04.",
          "DESIGN.md#c14"),
+ "C15": ("E3+E2", "fault_enumeration",
+         "exhaustive address-event point enumeration on real endpoints (migration, double migration, attacker replay from a spoofed address, migration disabled, off-path datagrams at the client) with single fate deviations",
+         "With data flowing (W2, W6) and CID rotation on, at every step index after the handshake the client's source address changes (port only on IPv4 and IPv6, full address), a second migration follows after several gaps, an attacker's copy of a genuine client datagram arrives from a third address ahead of the original (client continuing or silent), the server has migration disabled, or server datagrams reach the client from a foreign address; each combined with every single drop/dup/delay of the next 8 datagrams. Oracles: after a PATH_RESPONSE echoing a challenge sent to the new address was delivered the server reports and uses only that address and the workload completes; until then the 3x byte ledger bounds what is sent there and PATH_CHALLENGE/RESPONSE datagrams are >= 1200 bytes; a spoofed path is abandoned within 3 PTO; without permission to migrate nothing is sent to and no data accepted from the other address.",
+         "The migrating client keeps sending from the new address and is reachable there; 3 PTO bound uses max(old-path PTO from the probe, initial PTO of a fresh path).",
+         "DESIGN.md#c15"),
  "C20": ("E3", "fault_enumeration",
          "exhaustive insertion-point enumeration with differential (replay / time-translated / extra-call) runs of real endpoints",
          "For a list of input histories (baselines incl. Retry, CID rotation, key update, rebinding, migration, and every single-deviation history) the run is repeated: identically (bit-identical trace incl. every poll_timeout value), with all Instants shifted by 1 s / 1 day / 10 years (identical relative trace), with a spurious handle_timeout or extra poll round inserted at EVERY step index on either side (identical packets, frames and events), and with all datagrams re-fed plus ten timeouts after both sides drained (no output). A timer may not fire more than 16 consecutive times at one instant.",
